@@ -1142,6 +1142,27 @@ class Guard:
         return self.kind
 
 
+UNSIGNED = {"u8", "u16", "u32", "u64", "u128", "usize"}
+SWAPREL = {"Eq": "Eq", "Ne": "Ne", "Lt": "Gt", "Gt": "Lt", "Le": "Ge", "Ge": "Le"}
+
+
+def _canon_rel(op, a, b):
+    """Boundary forms on unsigned values have one spelling: x<1 == x<=0 == (x==0); x>=1 == x>0 == (x!=0)."""
+    def isk(e, k):
+        return e[0] == "const" and e[1] == k and len(e) > 2 and e[2] in UNSIGNED
+    if a[0] == "const" and b[0] != "const":
+        op, a, b = SWAPREL[op], b, a
+    if isk(b, 1) and op == "Lt":
+        return "Eq", a, ("const", 0, b[2])
+    if isk(b, 1) and op == "Ge":
+        return "Ne", a, ("const", 0, b[2])
+    if isk(b, 0) and op == "Gt":
+        return "Ne", a, b
+    if isk(b, 0) and op == "Le":
+        return "Eq", a, b
+    return op, a, b
+
+
 def _bool_guard(e, truth, **kw):
     """Normalise a boolean expression with a truth value into a Guard."""
     while e[0] == "un" and e[1] == "Not":
@@ -1149,7 +1170,8 @@ def _bool_guard(e, truth, **kw):
         truth = not truth
     if e[0] == "bin" and e[1] in NEG:
         op = e[1] if truth else NEG[e[1]]
-        return Guard("rel", op=op, a=e[2], b=e[3], **kw)
+        op, a, b = _canon_rel(op, e[2], e[3])
+        return Guard("rel", op=op, a=a, b=b, **kw)
     if e[0] == "call" and len(e) > 3:
         # a small local helper: try the relation it computes
         g = _bool_guard(e[3], truth, **kw)
@@ -1162,7 +1184,8 @@ def _bool_guard(e, truth, **kw):
             for rx, op in CALL_REL:
                 if rx.search(path):
                     op2 = op if truth else NEG[op]
-                    return Guard("rel", op=op2, a=e[2][0], b=e[2][1], **kw)
+                    op2, a, b = _canon_rel(op2, e[2][0], e[2][1])
+                    return Guard("rel", op=op2, a=a, b=b, **kw)
         if len(e[2]) == 1:
             tail = path.rsplit("::", 1)[-1]
             m = {"is_some": ("Some", "None"), "is_none": ("None", "Some"), "is_ok": ("Ok", "Err"), "is_err": ("Err", "Ok")}
@@ -1285,6 +1308,14 @@ class GuardIndex:
         self._dom_cache[key] = out
         return out
 
+    def implied(self, g):
+        """g together with what it implies: the helper view and, for bool temporaries, the guards of the defining arm(s)."""
+        out = [g]
+        if g.alt is not None:
+            out.append(g.alt)
+        out.extend(self._resolve_bool_temp(g, 0))
+        return out
+
     def _resolve_bool_temp(self, g, depth):
         """If g is `var == truth` for a bool local assigned constants in several blocks, the
         guards dominating the unique block that assigns that truth value also hold."""
@@ -1316,6 +1347,30 @@ class GuardIndex:
                     break
             if ok and len(matching) == 1:
                 extra.extend(self.dominating(matching[0], _depth=depth + 1))
+            elif ok and len(matching) > 1:
+                # several arms assign this truth value: what holds is the disjunction; variant tests on one
+                # expression merge into a 'oneof', anything common to all arms is kept as is
+                per = [self.dominating(m, _depth=depth + 1) for m in matching]
+                first = per[0]
+                for g0 in first:
+                    if g0.kind in ("is", "oneof"):
+                        names = []
+                        for lst in per:
+                            hit = [x for x in lst if x.kind in ("is", "oneof") and x.a == g0.a]
+                            if not hit:
+                                names = None
+                                break
+                            # the most specific (innermost) test on that expression in this arm
+                            x = hit[-1]
+                            names.extend([x.name] if x.kind == "is" else list(x.name))
+                        if names:
+                            uniq = tuple(sorted(set(str(n_) for n_ in names)))
+                            if len(uniq) == 1:
+                                extra.append(Guard("is", a=g0.a, name=uniq[0], edge=g.edge, line=g.line, macros=g.macros, enum=g0.enum))
+                            else:
+                                extra.append(Guard("oneof", a=g0.a, name=uniq, edge=g.edge, line=g.line, macros=g.macros, enum=g0.enum))
+                    elif all(any(repr(x) == repr(g0) for x in lst) for lst in per[1:]):
+                        extra.append(g0)
         return extra
 
 
